@@ -1,10 +1,11 @@
 #!/bin/sh
-# tools/mut.sh <name> <property> [check args...]: apply /verif/selftest/<name>.diff to the scratch copy /var/tmp/mrepo,
-# run the property's check against it (VERIF_REPO), restore the copy. Log: /var/tmp/logs/mut.<name>.log
+# tools/mut.sh <name> <property> [check args...]: copy /repo's current tree to the scratch directory /var/tmp/mrepo, apply
+# /verif/selftest/<name>.diff there, run the property's check against it (VERIF_REPO), report. Log: /var/tmp/logs/mut.<name>.log
 n=$1; p=$2; shift; shift
-M=/var/tmp/mrepo
-cd $M && git checkout -q -- . && git apply /verif/selftest/$n.diff || { echo "cannot apply $n"; exit 2; }
+M=/var/tmp/mrepo.$$
+mkdir -p $M && rsync -a --delete --exclude '.git' --exclude '.libs' --exclude '*.o' --exclude '*.lo' --exclude '*.la' --exclude 'tests' --exclude 'examples' /repo/ $M/
+(cd $M && patch -p1 -s < /verif/selftest/$n.diff) || { echo "cannot apply $n"; rm -rf $M; exit 2; }
 cd /verif && VERIF_REPO=$M VERIF_NOEVIDENCE=1 ./check $p "$@" > /var/tmp/logs/mut.$n.log 2>&1
 rc=$?
-cd $M && git checkout -q -- .
+rm -rf $M
 echo "mutant $n on $p: exit $rc  $(grep -c '^VIOLATION' /var/tmp/logs/mut.$n.log) violation line(s)"
